@@ -6,6 +6,8 @@ import (
 	"time"
 
 	"github.com/wokdav/gopki/generator/config"
+	"github.com/wokdav/gopki/generator/db"
+	"github.com/wokdav/gopki/generator/db/filesystem"
 
 	"verif/mc/drive"
 	"verif/mc/engine"
@@ -89,6 +91,15 @@ func c04Enumerate(tier string, yield func(any)) {
 	}{{&refcfg.Validity{Duration: "1y2m3d"}, nil, false}, {nil, nil, false}, {nil, &refcfg.Validity{Duration: "90d"}, true}, {&refcfg.Validity{Until: "2047-03-04"}, nil, false}} {
 		yield(&c04Case{Kind: "one", Zone: "UTC", V: sv.v, PV: sv.pv, HasProf: sv.prof, Slow: true})
 	}
+	// library interface: the profile is registered through AddProfile (ProfMask 0: a profile without any validity,
+	// 1: with a fixed period) and the entity (CertMask 0: no validity block, 3: from + until) is signed through AddAndSign
+	for _, z := range []string{"UTC", "Pacific/Kiritimati"} {
+		for _, pm := range []int{0, 1} {
+			for _, cm := range []int{0, 3} {
+				yield(&c04Case{Kind: "api", Zone: z, CertMask: cm, ProfMask: pm})
+			}
+		}
+	}
 	for _, z := range []string{"UTC", "America/New_York"} {
 		for cm := 0; cm < 8; cm++ {
 			yield(&c04Case{Kind: "combo", Zone: z, CertMask: cm})
@@ -116,6 +127,82 @@ func c04Mask(m int, from, until, dur string) *refcfg.Validity {
 	return v
 }
 
+// c04API: the inheritance and default clauses through the library: a profile object without validity (or with a fixed
+// period) is registered with AddProfile, the stored entity is pointed at it and signed with AddAndSign.
+func c04API(x *engine.Ctx, c *c04Case) {
+	ent := &refcfg.CertCfg{Path: "ent.yaml", Subject: "CN=api validity", KeyAlg: "P-224", Validity: c04Mask(c.CertMask, "2031-03-04", "2033-05-06", "")}
+	d := &Dir{Certs: []*refcfg.CertCfg{ent}}
+	w := simfs.New(simfs.TickPerWrite)
+	d.Render(w)
+	w.Put("ent.pem", FixtureKeyPEM("P-224-0"))
+	fsdb := filesystem.NewFilesystemDatabase(w)
+	w.BeginRun(nil)
+	if err := fsdb.Open(); err != nil {
+		x.Violation("C04/api/open-failed", err.Error())
+		return
+	}
+	defer fsdb.Close()
+	x.Nontrivial(fmt.Sprintf("api %s %d %d", c.Zone, c.CertMask, c.ProfMask))
+	prof := config.CertificateProfile{Name: "registered"}
+	pFrom, pUntil := time.Date(2030, 1, 2, 0, 0, 0, 0, time.UTC), time.Date(2034, 5, 6, 0, 0, 0, 0, time.UTC)
+	if c.ProfMask == 1 {
+		prof.Validity = config.CertificateValidity{From: pFrom, Until: pUntil, IsStatic: true, IsSet: true}
+	}
+	if err := fsdb.AddProfile(prof); err != nil {
+		x.Violation("C04/api/add-profile-failed", err.Error())
+		return
+	}
+	cfg, err := fsdb.GetConfig("ent")
+	if err != nil || cfg == nil {
+		x.Violation("C04/api/no-config", fmt.Sprint(err))
+		return
+	}
+	nc := *cfg
+	nc.Profile = "registered"
+	t0 := time.Now()
+	var aerr error
+	var panicked string
+	func() {
+		defer func() {
+			if r := recover(); r != nil {
+				panicked = fmt.Sprint(r)
+			}
+		}()
+		_, aerr = db.AddAndSign(fsdb, nc, true)
+	}()
+	t1 := time.Now()
+	x.Transition(1)
+	if panicked != "" || aerr != nil {
+		x.Violation("C04/api/signing-failed", fmt.Sprintf("%v %s", aerr, panicked))
+		return
+	}
+	a := ReadArtifact(w, "ent.yaml")
+	if a.Cert == nil {
+		x.Violation("C04/api/no-certificate", fmt.Sprint(a.CertErr))
+		return
+	}
+	nb, na := a.Cert.NotBefore.T, a.Cert.NotAfter.T
+	what := fmt.Sprintf("entity validity block: %s; profile registered through AddProfile %s", map[int]string{0: "none", 3: "from 2031-03-04 until 2033-05-06"}[c.CertMask], map[int]string{0: "without validity", 1: "with 2030-01-02 .. 2034-05-06"}[c.ProfMask])
+	switch {
+	case c.CertMask == 3:
+		wf, wu := time.Date(2031, 3, 4, 0, 0, 0, 0, time.Local), time.Date(2033, 5, 6, 0, 0, 0, 0, time.Local)
+		if !nb.Equal(wf) || !na.Equal(wu) {
+			x.Violation("C04/api/own-validity-not-used", fmt.Sprintf("%s: certificate has %s .. %s", what, nb.UTC(), na.UTC()))
+		}
+	case c.ProfMask == 1:
+		if !nb.Equal(pFrom) || !na.Equal(pUntil) {
+			x.Violation("C04/api/profile-validity-not-inherited", fmt.Sprintf("%s: certificate has %s .. %s", what, nb.UTC(), na.UTC()))
+		}
+	default:
+		if nb.Before(t0.Add(-2*time.Second)) || nb.After(t1.Add(2*time.Second)) {
+			x.Violation("C04/api/default-notBefore-is-not-the-run-time", fmt.Sprintf("%s: notBefore %s, signed between %s and %s", what, nb.UTC(), t0.UTC(), t1.UTC()))
+		} else if !na.Equal(nb.AddDate(5, 0, 0)) {
+			x.Violation("C04/api/default-lifetime-is-not-five-years", fmt.Sprintf("%s: %s .. %s", what, nb.UTC(), na.UTC()))
+		}
+	}
+	x.Outcome("api validity compared")
+}
+
 func c04Exec(x *engine.Ctx, cc any) {
 	c := cc.(*c04Case)
 	loc, err := time.LoadLocation(c.Zone)
@@ -127,6 +214,8 @@ func c04Exec(x *engine.Ctx, cc any) {
 	switch c.Kind {
 	case "edit":
 		c04Edit(x, c)
+	case "api":
+		c04API(x, c)
 	case "one":
 		c04OneSlow(x, c.Zone, c.V, c.PV, c.HasProf, c.Slow)
 	case "year":
@@ -329,7 +418,7 @@ func init() {
 	register(&engine.Check{
 		ID:          "C04",
 		Level:       "exploration",
-		Rule:        "every calendar date of the years {1950,1999,2000,2024,2049,2050,2100,2200,2262,2263,2400,9998} (quick) / of every year 1950..2200 in two zones (thorough) as `from` (with duration 1y) and as `until`, in 8 local time zones (UTC, Berlin, New York, Kolkata, Kiritimati +14, Pago Pago -11, Lord Howe 30-minute DST, Havana DST at midnight); duration grid y{-,0,1,5,25,100,010,08} x m{-,0,1,11,12,13,25,09,0012} x d{-,0,1,28,31,365,366,1000,0030,08} (leading zeros are decimal) from 12 month-end / leap-day start dates and from the run time; all 8 x (1+8) presence combinations of from/until/duration in certificate and profile. Each through a whole gopki run with an existing P-224 key; oracle = own proleptic-Gregorian arithmetic for local midnight and calendar addition, UTCTime/GeneralizedTime by year, inheritance rule. non-trivial = distinct (zone, block, profile block); and four relative shapes (duration only, nothing, profile duration, until only) for an entity issued after its root on a filesystem whose writes take 1.1 s, so that the reading of the configuration and the building of the certificate fall into different seconds (notAfter must still be notBefore plus the duration exactly); and 14 edits of the validity block (own and inherited; until, duration, from+until, from+duration, shape changes) after a first run, followed by a default run whose certificate must carry the new period",
+		Rule:        "every calendar date of the years {1950,1999,2000,2024,2049,2050,2100,2200,2262,2263,2400,9998} (quick) / of every year 1950..2200 in two zones (thorough) as `from` (with duration 1y) and as `until`, in 8 local time zones (UTC, Berlin, New York, Kolkata, Kiritimati +14, Pago Pago -11, Lord Howe 30-minute DST, Havana DST at midnight); duration grid y{-,0,1,5,25,100,010,08} x m{-,0,1,11,12,13,25,09,0012} x d{-,0,1,28,31,365,366,1000,0030,08} (leading zeros are decimal) from 12 month-end / leap-day start dates and from the run time; all 8 x (1+8) presence combinations of from/until/duration in certificate and profile. Each through a whole gopki run with an existing P-224 key; oracle = own proleptic-Gregorian arithmetic for local midnight and calendar addition, UTCTime/GeneralizedTime by year, inheritance rule. non-trivial = distinct (zone, block, profile block); and four relative shapes (duration only, nothing, profile duration, until only) for an entity issued after its root on a filesystem whose writes take 1.1 s, so that the reading of the configuration and the building of the certificate fall into different seconds (notAfter must still be notBefore plus the duration exactly); and 14 edits of the validity block (own and inherited; until, duration, from+until, from+duration, shape changes) after a first run, followed by a default run whose certificate must carry the new period; through the library (two zones): a profile object without validity or with a fixed period registered with AddProfile x an entity without validity block or with from + until, signed with AddAndSign - own block, inherited period, or run time + five years",
 		Bound:       map[string]string{"dates": "quick 12 years x 8 zones; thorough 1950-2200 x 2 zones + 12 years x 6 zones"},
 		Assumptions: []string{"the zone offset tables of Go's embedded tzdata are trusted; in a DST gap/overlap at local midnight either offset is accepted", "without `from`, notBefore must lie within the measured run interval +-1 s", "calendar-invalid dates are only required not to crash (C20)"},
 		Budget:      budgets(quickBudget, thoroughBudget),
